@@ -189,9 +189,20 @@ def run(ctx):
         name = "MCReg_window_%s" % f
         return name, tlc.run(name, mc_cfg(False, [f], False, liveness=False), module_text=mc_module(name, ("trio", "asyncio"), False), name=name, workers=1, timeout=300, heap="1g")
 
+    # thorough: four submitters, model only (no emission): the protocol's guarantees for every
+    # flavour multiset
+    def big_run(flav):
+        name = "MCReg4_%s" % "".join(f[:2] for f in flav)
+        return name, tlc.run(name, mc_cfg(True, ["TypeOK", "OnlyAdopted"] + SAFETY, False), module_text=mc_module(name, flav, False), name=name, workers=2, timeout=900, heap="2g")
+
+    big = list(itertools.combinations_with_replacement(FLAVS, 4)) if thorough else []
     with ThreadPoolExecutor(max_workers=10) as ex:
         explored = list(ex.map(explore, enumerate(cfgs)))
         windows = list(ex.map(window_run, SAFETY))
+        bigs = list(ex.map(big_run, big))
+    for name, res in bigs:
+        ctx.model_must_hold(name, res)
+        ctx.add_model_run(name + " (model only)", res)
     for k, ((flav, protocol), (name, res)) in enumerate(zip(cfgs, explored)):
         ctx.model_must_hold(name, res)
         ctx.add_model_run(name, res)
